@@ -1440,6 +1440,31 @@ theorem append_wf_any : ∀ (args : List Val) (acc : Val) (h : Heap), WF h →
       rw [hun]; exact ih a h hwf (fun id hid => hids id (List.mem_cons_of_mem _ hid))
     · exact append_wf_core h acc (a :: as) hacc hwf hids
 
+/-- `WrappedErrors()` elements carry no link -/
+theorem wrappedErrors_next_none' (h : Heap) (id : Nat) : ∀ n ∈ wrappedErrors h id, n.next = none := by
+  intro n hn
+  unfold wrappedErrors at hn
+  simp only [List.mem_filterMap] at hn
+  obtain ⟨i, _, hx⟩ := hn
+  cases hh : h[i]? with
+  | none => rw [hh] at hx; cases hx
+  | some m => rw [hh] at hx; simp at hx; rw [← hx]
+
+/-- taking an element of `WrappedErrors()` as a value of its own keeps the invariant, whatever the value and index -/
+theorem elem_wf_any (h : Heap) (v : Val) (i : Nat) (hwf : WF h) : WF (elem h v i).1 := by
+  cases v with
+  | ref id =>
+    cases hn : (wrappedErrors h id)[i]? with
+    | none => simp only [elem, hn]; exact hwf
+    | some n =>
+      simp only [elem, hn]
+      exact push_wf h n hwf (wrappedErrors_next_none' h id n (List.mem_of_getElem? hn))
+  | nilIface => exact hwf
+  | typedNil => exact hwf
+  | foreignNil => exact hwf
+  | plain u m => exact hwf
+  | fwrap u m inner => exact hwf
+
 /-- the heaps the exported API can build (without `CloneWithPrefixMessage`): every `*Error` handed to a call exists -/
 inductive Reachable : Heap → Prop
   | empty : Reachable #[]
@@ -1450,6 +1475,7 @@ inductive Reachable : Heap → Prop
   | wrapTyped (h : Heap) (v : Val) : Reachable h → Reachable (wrapTyped h v).1
   | append (h : Heap) (acc : Val) (args : List Val) : Reachable h →
       (∀ id, Val.ref id ∈ acc :: args → id < h.size) → Reachable (append h acc args).1
+  | elem (h : Heap) (v : Val) (i : Nat) : Reachable h → Reachable (elem h v i).1   -- an element of WrappedErrors()
 
 theorem reachable_wf_aux {h : Heap} (r : Reachable h) : WF h := by
   induction r with
@@ -1460,6 +1486,7 @@ theorem reachable_wf_aux {h : Heap} (r : Reachable h) : WF h := by
   | wrap h v _ ih => exact wrap_wf h v ih
   | wrapTyped h v _ ih => exact wrapTyped_wf h v ih
   | append h acc args _ hids ih => exact (append_wf_any args acc h ih hids).1
+  | elem h v i _ ih => exact elem_wf_any h v i ih
 
 /-! ### the content law with aliasing: arguments that end in the accumulator's last cell are read after it has grown -/
 
